@@ -250,6 +250,14 @@ func ruleClientDeadlinesPaired(c *Ctx) {
 			}
 		})
 		for _, a := range arms {
+			// which timeout: the end-of-data exchange waits for the delivery verdict (SubmissionTimeout), every other
+			// exchange for a command reply (CommandTimeout)
+			want := "Client.CommandTimeout"
+			if strings.HasPrefix(fn, "(*dataCloser).") {
+				want = "Client.SubmissionTimeout"
+			}
+			d := describe(callCommon(a.in).Args[0])
+			R.Ob(c.siteKey(a.in, "deadline derived from "+want), c.P.InstrPos(a.in), strings.Contains(d, want), fmt.Sprintf("%s arms %s: the wait for the verdict after the final dot is SubmissionTimeout, command replies CommandTimeout — with the shorter one a slow delivery makes Close return a local i/o timeout instead of the server's verdict", fn, d))
 			n++
 			ok := (!a.rd || clrR) && (!a.wr || clrW)
 			var missing []string
